@@ -11,12 +11,25 @@
    `pool_src_switches` is read from the Go source on every run (Gen/PoolSrc.v).  The theorems are stated for the
    code that is in the tree: if one of the repaired spots regresses, `exact` below no longer type-checks. *)
 From Coq Require Import List ZArith Bool.
-From MV Require Import Model.Pool Model.PoolMx Gen.PoolSrc Proofs.Pool Proofs.PoolMx Model.PoolInit Proofs.PoolInit Model.PoolDestroy Proofs.PoolDestroy.
+From MV Require Import Model.Pool Model.PoolMx Gen.PoolSrc Proofs.Pool Proofs.PoolMx Model.PoolInit Proofs.PoolInit Model.PoolDestroy Proofs.PoolDestroy Model.PoolAdmit Proofs.PoolAdmit.
 Import ListNotations.
 Open Scope Z_scope.
 
 (* the translator recognised the source spots *)
 Theorem c09_translator_ok : PoolSrc_translator_ok = true.
+Proof. exact (eq_refl true). Qed.
+
+(* resource_manager.go: Increase / Decrease count whatever the limit (max_requests = 0 only makes CanCreate admit
+   everything), so the Requests resource below equals the live streams (+ external holders) for EVERY max_requests *)
+Theorem c09_resource_counts_unlimited : poolres_src_counts_unlimited = true.
+Proof. exact (eq_refl true). Qed.
+
+(* HTTP/1 (no request ids): data the upstream sends while NO request is outstanding on a connection - a duplicate or late
+   answer of a finished exchange - is not kept for the connection's next lessee: the client stream connection closes the
+   connection (Dispatch tests the awaiting flag that doSend sets and serve clears once the response is read; a connection
+   with bytes behind a complete response is not reused).  The source shape is read on every run; in the histories below
+   such data is therefore the operation `ConnClose c EvLocal`, resp. `Response s true` (harness family late-response). *)
+Theorem c09_http_idle_data_closes : poolhttp_src_idle_data_closes = true.
 Proof. exact (eq_refl true). Qed.
 
 (* Exclusive lease.  After every history: no connection carries two in-flight requests; every connection the pool
@@ -36,7 +49,7 @@ Theorem c09_books : forall k ops, k_sw k = pool_src_switches -> let p := run k o
   total p = Z.of_nat (count_leased p) + Z.of_nat (length (idle p)) /\
   NoDup (idle p) /\
   (forall c, In c (idle p) -> (c < nclients p)%nat /\ closed p c = false /\ inflight p c = 0%nat) /\
-  req p = (if k_max_req k =? 0 then 0 else Z.of_nat (count_live p) + ext p) /\ 0 <= req p.
+  req p = Z.of_nat (count_live p) + ext p /\ 0 <= req p.
 Proof. exact pool_books. Qed.
 Print Assumptions c09_books.
 
@@ -137,7 +150,7 @@ Theorem c09_multiplex_no_orphan : forall k ops, mk_sw k = poolmx_src_switches ->
      mslot p = SClient c \/ (mc_goaway (mcl p c) = true /\ (mactive p c >= 1)%nat)) /\
   (forall c, (c < mnclients p)%nat -> mclosed p c = false -> mc_goaway (mcl p c) = true -> (mactive p c >= 1)%nat) /\
   (forall s, (s < mnstreams p)%nat -> mlive p s = true -> mclosed p (mscli p s) = false) /\
-  mreq p = (if mk_max_req k =? 0 then 0 else Z.of_nat (mcount_live p) + mext p) /\ 0 <= mext p /\
+  mreq p = Z.of_nat (mcount_live p) + mext p /\ 0 <= mext p /\
   (forall s, (s < mnstreams p)%nat -> (ms_destroys (mst p s) <= 1)%nat /\ (ms_recv (mst p s) <= 1)%nat).
 Proof. exact mx_no_orphan. Qed.
 Print Assumptions c09_multiplex_no_orphan.
@@ -210,11 +223,24 @@ Print Assumptions c09_multiplex_init_unlocked_refuted.
 
 (* Ping-pong and HTTP/1 connect paths (no idle client): whatever the interleaving with the close event of the new
    connection, when both goroutines are done totalClientCount counts exactly the open connection and the closed flag is
-   set iff the connection closed.  (In between, the ping-pong counter can be -1: the event's Dec may precede the Inc.) *)
+   set iff the connection closed.  (`poolinit_src_pp_count_locked`: the ping-pong pool counts the connection inside the
+   critical section that tested max_connections, as the HTTP/1 pool does; proved for both orders.) *)
 Theorem c09_connect_books : forall sched,
-  count_good (irun sched pp_connect_cfg) = true /\ count_good (irun sched http_connect_cfg) = true.
-Proof. exact (fun sched => conj (pp_connect_books sched) (http_connect_books sched)). Qed.
+  count_good (irun sched (pp_connect_cfg poolinit_src_pp_count_locked)) = true /\ count_good (irun sched http_connect_cfg) = true.
+Proof. exact (fun sched => conj (pp_connect_books poolinit_src_pp_count_locked sched) (http_connect_books sched)). Qed.
 Print Assumptions c09_connect_books.
+
+(* max_connections under CONCURRENT NewStream calls (Model/PoolAdmit.v, three callers, limit 1, no idle client): the
+   ping-pong pool counts the new connection inside the critical section that tested the limit (read from the source;
+   the HTTP/1 pool has that shape), so under every schedule at most max_connections connections are dialled; counting
+   after the dial (ping-pong before the repair) lets every caller pass the test. *)
+Theorem c09_max_connections_concurrent : admit_statement (conn_cfg poolinit_src_pp_count_locked).
+Proof. exact conn_count_locked_safe. Qed.
+Print Assumptions c09_max_connections_concurrent.
+
+Theorem c09_count_after_dial_refuted : ~ admit_statement (conn_cfg false).
+Proof. exact conn_count_after_dial_refuted. Qed.
+Print Assumptions c09_count_after_dial_refuted.
 
 Example c09_init_example :
   irun [0;0;1;0;1;0;1;1;1]%nat (mx_init_cfg poolinit_src_mx_dial_locked) =
